@@ -318,7 +318,8 @@ EXTRA = {
     "C02": " Macro symbols include ERROR / RSTACK code 0x00 and data fields of exactly 256 and 257 bytes; mutated streams "
            "use payloads up to 300 bytes and codes 0x00 / 0xFF."
            " Over-long flag-free runs are also ended by CANCEL and by SUBSTITUTE (not only by FLAG) and followed by a valid frame, which must be delivered."
-           ' For a well-formed DATA frame that is not the next expected one the reference fixes the number of the answer, not its kind (ACK or NAK).',
+           ' For a well-formed DATA frame that is not the next expected one the reference fixes the number of the answer, not its kind (ACK or NAK).'
+           ' Several answers in one write are decoded frame by frame.',
     "C03": " A fifth payload pattern makes the randomised data field walk through every ordered pair of reserved / "
            "reserved^0x20 bytes; every DATA frame is also fed to the running receiver as the reference's wire image "
            "(decode direction end to end); the stuffing helpers are compared with the reference on all 2-byte strings "
@@ -334,10 +335,12 @@ EXTRA = {
            "link's business: window and budget rules continue to apply); an ERROR frame arriving after the host gave up "
            "on its own is reported with its code."
            ' NAK reactions include NAKs that ask for another frame than the outstanding one (one behind, three ahead): the repeat must follow at once and keep the frame number the send started with.'
-           ' Payloads are as long as real EZSP frames get (40 and 180 bytes; which sends carry them varies per case), so that every repeat can be compared byte for byte in every logging mode.',
+           ' Payloads are as long as real EZSP frames get (40 and 180 bytes; which sends carry them varies per case), so that every repeat can be compared byte for byte in every logging mode.'
+           ' Outcomes are classified by exception family.',
     "C06": " The seeded part also uses the route / extended-timeout set-up commands (packet-send class) and ordinary "
            "commands whose frame ID means something else in another protocol version; the simulated NCP sets the "
-           "callbackPending / overflow frame-control bits on responses.",
+           "callbackPending / overflow frame-control bits on responses."
+           ' Queued callers are also cancelled 0..3 loop iterations after the frame that ends the command ahead of them (the slot changing hands); a send cancelled by its caller may still go out (the link layer shields it) and be answered under a sequence number nobody awaits; replies are also doubled within one loop iteration. Outcomes are classified by exception family (isinstance), and which exception a failed send raises is not judged.',
     "C07": " Keyword calls are also made in reversed / shuffled order and mixed with a positional prefix; an "
            "invalidCommand frame answering pending commands of several response layouts must be decoded with its own "
            "schema; half of the shards use a socket:// device path; every unsolicited frame is fed twice in a row and "
@@ -346,7 +349,8 @@ EXTRA = {
            " Arguments are also passed as instances of harness-made sub-classes whose own wire layout differs from the declared type's (a struct with one integer field re-declared wider, an integer with its own serialize()): the call must serialise them as the declared type; every shard starts with a command that ends by its timeout, and callback frames later arrive under that sequence number.",
     "C08": " Truncations are repeated with other frame-control bytes (overflow / truncated / callback-pending / reserved "
            "bits); the pending command's caller is cancelled and its well-formed response delivered before the "
-           "cancelled task has run its clean-up.",
+           "cancelled task has run its clean-up."
+           " A well-formed reply of the pending command's own kind is also injected under neighbouring sequence numbers (must not complete it); after a frame consumed a pending command's slot the command is waited out - it must still end, by its timeout at the latest; a command may end with an error on its own malformed response (own sequence number and frame ID).",
     "C09": " Duplicates are produced both in a read of their own and within one read (an RSTACK doubled in one read "
            "must not fail bring-up); a late-booting socket NCP may also read the queued RST once it is up (boot RSTACK "
            "and answer RSTACK in one read); a raw command and a handler-implemented helper are used after every "
@@ -361,14 +365,16 @@ EXTRA = {
            "once before any application was attached; the NCP takes 4 ms to execute a command on half of the cases; the "
            "caller of the in-flight command is cancelled in the very loop iteration in which the failure is processed; "
            "both transport behaviours for an exception escaping the receive callback alternate."
-           ' Reset requests are attributed to a deliberate close only if they follow it; a silent NCP counts as observable only for a DATA frame it had not acknowledged before it fell silent (both independent of how the command / link timeouts are tuned).',
+           ' Reset requests are attributed to a deliberate close only if they follow it; a silent NCP counts as observable only for a DATA frame it had not acknowledged before it fell silent (both independent of how the command / link timeouts are tuned).'
+           ' A command issued after the failure must raise at once (whatever it raises) and write nothing.',
     "C11": " One or two further reset requests are made on the same gateway after the first ended by completion, "
            "timeout, failure code or a failing RST write (write error, port closing); an NCP DATA frame - new, or a "
            "retransmission of one the host already took - may arrive between the RST and the RSTACK; a host DATA frame "
            "may still be unacknowledged at the reset, with another one queued behind it; numbering is also checked "
            "after a completed start-up wait following prior traffic; the waiter-release clause is repeated with the "
            "gateway in its own thread (use_thread=True, real time)."
-           " The connection is also lost (error, EOF, clean close) while a host DATA frame is unacknowledged and another is queued.",
+           " The connection is also lost (error, EOF, clean close) while a host DATA frame is unacknowledged and another is queued."
+           ' Loss kinds include the host itself closing the port (Gateway.close()) with a waiter pending; exceptions are classified by family (any connection / OS error releases a waiter, any TimeoutError sub-class is the timeout).',
     "C12": " Refusals and failed confirmations are repeated with every other status code of the reply's status family; "
            "confirmations of every outgoing-message type carrying the request's tag but another destination / table "
            "index must not complete it; the application is disconnected while accepted unicasts await confirmation."
@@ -379,7 +385,8 @@ EXTRA = {
            "changed mid-run; the network information is re-read while unicasts keep arriving; trust-centre join "
            "callbacks also come in bursts of two or three, and events are judged after the loop had time."
            " Join and leave callbacks also name devices the application already has in its device table, under the same or another network address."
-           " The whole stack is also run on the faulty line (rtmon/fullstack.py: real ControllerApplication + EZSP + Gateway + AshProtocol created through ControllerApplication.connect(), against the independent NCP-side ASH endpoint and the stateful NCP model; unicasts awaiting confirmations, incoming messages and keep-alives under a seeded fault rate, every protocol version): the packets handed to zigpy must be exactly the incoming-message callbacks the host's EZSP layer received - once each, in order, field for field - whatever ASH retransmitted or the line duplicated.",
+           " The whole stack is also run on the faulty line (rtmon/fullstack.py: real ControllerApplication + EZSP + Gateway + AshProtocol created through ControllerApplication.connect(), against the independent NCP-side ASH endpoint and the stateful NCP model; unicasts awaiting confirmations, incoming messages and keep-alives under a seeded fault rate, every protocol version): the packets handed to zigpy must be exactly the incoming-message callbacks the host's EZSP layer received - once each, in order, field for field - whatever ASH retransmitted or the line duplicated."
+           ' Every ~100 callbacks a command times out, and callbacks then arrive under its sequence number.',
     "C14": " A link key that is not the last one may be refused by the NCP (the others must still make the round trip); "
            "frame counter 0 is written over an NCP that holds a non-zero counter from an earlier network."
            " Every third NCP sees two or three restores in a row, the later ones often for the (restored) address it runs with at that moment."
@@ -388,20 +395,24 @@ EXTRA = {
            "after the NCP cleared or lost entries; pairs / triples of calls for different groups overlap in time; "
            "rejections are repeated with every status code of the reply's family; group changes are also made through "
            "the coordinator's endpoint of a started application (add_to_group / remove_from_group)."
-           " In-use initial entries sit on endpoints 1, 2, 127, 242 and 255 and on network indexes 0, 1 and 255.",
+           " In-use initial entries sit on endpoints 1, 2, 127, 242 and 255 and on network indexes 0, 1 and 255."
+           ' What group id a cleared entry carries is open (endpoint 0 = not programmed).',
     "C16": " Rejections carry status codes cycling through the reply's whole status family; overrides equal to the "
            "library's own default are user values too; the configuration is also written through "
-           "ControllerApplication.connect() and _reset() on every version.",
+           "ControllerApplication.connect() and _reset() on every version."
+           " The library's defaults are observed (what write_config({}) sets on an NCP that reports 0 for every setting), not read from its tables.",
     "C17": " 'Quiet' shards deliver nothing but the operations' own completing events, so the same status value repeats "
            "with nothing in between; 'overlap' shards run scan, poll, ZLL scan and a foreign add/remove_callback with "
            "every interleaving of their start and end events (non-LIFO lifetimes): each list command returns exactly "
            "the results delivered between its issue and its completion and nothing stays registered."
            " 'status_overlap' shards run two or three operations that wait for a stack status at the same time (formNetwork, leaveNetwork, bare waiters as the application's bring-up uses them), one of them sometimes cancelled: each completes at the first matching event, none is skipped.",
     "C18": " Every undefined unified value below 0x20000 and structured 32-bit values (legacy codes in the low byte under various high bytes) are included."
-           ' Every 8-bit code is converted again and again - one family five times over before the other, then the other way round, then 20 000 conversions in random order mixed with unified statuses - and each result is judged like the first (the conversion is a function of its argument).',
+           ' Every 8-bit code is converted again and again - one family five times over before the other, then the other way round, then 20 000 conversions in random order mixed with unified statuses - and each result is judged like the first (the conversion is a function of its argument).'
+           ' Which family a fresh process converts first varies per shard (one mixes both from the first call); two shards run with Python warnings turned into errors.',
     "C19": " Free-buffer reports vary from feed to feed (including nearly none); the all-success period run carries "
            "isolated failures; on v4 the EZSP object is closed for good while the watchdog keeps feeding."
-           ' About a third of the successful feeds on v5+ have their free-buffer read answered with an error status and no value: still successful feeds.',
+           ' About a third of the successful feeds on v5+ have their free-buffer read answered with an error status and no value: still successful feeds.'
+           ' Which exception a raising feed raises is open; on v4 the no-op must come first and no counter read may be made.',
     "C20": " Wrappers are also looked up once (on the owner loop, on another loop, in a thread without a loop) and called "
            "later from elsewhere; calls are made while the owner's loop is open but not running and must execute once it "
            "runs; a quarter of the coroutine calls are fire-and-forget and must execute all the same; coroutine calls "
